@@ -44,6 +44,14 @@ var apTypes = []string{
 	"CONTENT-TYPE: \tapplication/activity+json; charset=utf-8",
 }
 
+// parameters in odd shapes: a media type is its essence, whatever hangs behind it
+var apTypesOdd = []string{
+	"Content-Type: application/activity+json; charset",
+	"Content-Type: application/activity+json;",
+	"Content-Type: application/activity+json; =x; ;; q",
+	"Content-Type: application/ld+json; profile",
+}
+
 var c05Corpus = []corpusEntry{
 	{"small-crlf", true, func(id string) (*Response, string) {
 		d := noteDoc(id, "")
@@ -73,6 +81,13 @@ var c05Corpus = []corpusEntry{
 		// a Content-Length is only a claim; HTTP/1.0 bodies end where the connection ends
 		d := noteDoc(id, "")
 		return HTTPResponse("HTTP/1.0 200 OK", []string{"Content-Length: 1000000000000", apTypes[0]}, d, "\r\n"), d
+	}},
+	{"parameters-in-odd-shapes", true, func(id string) (*Response, string) {
+		d := noteDoc(id, "")
+		return HTTPResponse("HTTP/1.0 200 OK", []string{apTypesOdd[len(id)%len(apTypesOdd)]}, d, "\r\n"), d
+	}},
+	{"429-with-a-date-to-come-back-at", false, func(id string) (*Response, string) {
+		return HTTPResponse("HTTP/1.1 429 Too Many Requests", []string{apTypes[0], "Retry-After: Fri, 31 Dec 2100 23:59:59 GMT"}, noteDoc(id, ""), "\r\n"), ""
 	}},
 	{"404", false, func(id string) (*Response, string) {
 		return HTTPResponse("HTTP/1.0 404 Not Found", []string{apTypes[0]}, `{"error":"Record not found"}`, "\r\n"), ""
